@@ -45,8 +45,7 @@ REQUIRED = {
     ],
     'Telescope.is_idle': [
         ('every observation finished', [
-            Lit('forall observation in Instrument.observations: '
-                'RunStatus.FINISHED == observation.status', True),
+            Lit('forall $1 in Instrument.observations: RunStatus.FINISHED == $1.status', True),
             Lit('empty(Instrument.observations)', True)]),
         ('no arrays in use', eq('0', 'Instrument.telescope_use') + [
             Lit('truthy(Instrument.telescope_use)', False),
